@@ -24,6 +24,10 @@ def showTable (t : Table) : String :=
   let bs := (t.filter fun b => !b.2.isEmpty).mergeSort keyLe
   showRecs (recs bs)
 
+/-- what GetServers / ListRpki report for one source: records v4, v6, prefixes v4, v6 -/
+def showInfo (t : Table) (src : Nat) : String :=
+  s!"{src}:{infoRecords t 4 src},{infoRecords t 6 src},{infoPrefixes t 4 src},{infoPrefixes t 6 src}"
+
 def showStatus : Status → String
   | .notFound => "not-found" | .valid => "valid" | .invalid => "invalid"
 def showReason : Reason → String
@@ -74,8 +78,19 @@ def insClient (c : Client) : List Client → List Client
   | [] => [c]
   | x :: xs => if c.host < x.host then c :: x :: xs else x :: insClient c xs
 
+/-- GetServers: up flag, serial number and the Info counters of the client's host -/
+def showReported (m : Mgr) (c : Client) : String :=
+  s!"{c.host}:{if c.conn == .none then 0 else 1},{c.serial},{infoRecords m.table 4 c.host},{infoRecords m.table 6 c.host},{infoPrefixes m.table 4 c.host},{infoPrefixes m.table 6 c.host}"
+
+/-- sort.Slice is not stable beyond 12 entries: among entries with equal (max length, AS) the
+    manager dump orders by source on both sides -/
+def canonBucket (b : Prefix × List Roa) : Prefix × List Roa :=
+  (b.1, b.2.mergeSort fun x y =>
+    x.maxLen < y.maxLen || (x.maxLen == y.maxLen && (x.as < y.as || (x.as == y.as && x.src ≤ y.src))))
+
 def showMgr (m : Mgr) : String :=
-  "T " ++ showTable m.table ++ " | C " ++ " ".intercalate ((m.clients.foldr insClient []).map showClient)
+  "T " ++ showTable (m.table.map canonBucket) ++ " | C " ++ " ".intercalate ((m.clients.foldr insClient []).map showClient) ++
+    " | R " ++ " ".intercalate ((m.clients.foldr insClient []).map (showReported m))
 
 def showSent : Sent → String
   | .resetQuery => "rq"
@@ -117,6 +132,8 @@ def step (s : St) (ts : List String) : St × List String :=
     ({ s with tbl := delete s.tbl ⟨nat! fam, nat! len, nat! bits⟩ ⟨nat! ml, nat! as, nat! src⟩ }, [])
   | ["tdelall", src] => ({ s with tbl := deleteAll s.tbl (nat! src) }, [])
   | ["tdump"] => (s, ["recs " ++ showTable s.tbl])
+  | "tinfo" :: srcs =>
+    (s, ["info " ++ " ".intercalate (srcs.map fun x => showInfo s.tbl (nat! x))])
   | "tval" :: kind :: fam :: len :: bits :: las :: nseg :: rest =>
     if nat! kind ≠ 0 then (s, ["nil | " ++ showPol none])
     else
